@@ -1032,10 +1032,17 @@ def check_C06(tier, seed):
                     nf['well_formed'] = nf.get('well_formed', 0) + int(t[3])
                     nf['well_typed'] = nf.get('well_typed', 0) + int(t[4])
                     nf['check_accepts'] = nf.get('check_accepts', 0) + int(t[5])
+                if len(t) >= 7:
+                    nf['unknown_numbers_below_2^29'] = nf.get('unknown_numbers_below_2^29', 0) + int(t[6])
+                    # C06_parser_result_is_well_formed_checked_and_typed, evaluated: a contradiction means extraction or the model is off
+                    if (t[3], t[5]) != ('1', '1') or (t[6] == '1' and t[4] != '1'):
+                        nf['contradicts_theorem'] = nf.get('contradicts_theorem', 0) + 1
         return lines
     run_corr_streams(run, ctx, rnd, envs, per_env, st, [rt_and_nf], 'rt', oracle)
-    run.cov['theorem_hypothesis'] = dict(nf, note='accepted inputs whose parse result, normalised (Impl/Norm.v), satisfies canon_msg: for these the stability '
-                                                  'theorem applies; the others (e.g. unknown field numbers >= 2^29 reached through 5-byte keys) rest on the oracle alone')
+    if nf.get('contradicts_theorem'):
+        rp = run.replay('theorem.txt', 'the extracted predicates contradict theorem unpack_result_good on %d accepted inputs (inputs shorter than 2^28)\n' % nf['contradicts_theorem'])
+        run.violation(rp, True)
+    run.cov['theorem_hypothesis'] = dict(nf, note='C06_accepted_input_is_reserialisable_and_stable applies to every accepted input whose retained unknown field numbers are below 2^29 (counted here with the extracted predicate); the others (5-byte keys with larger numbers) rest on the oracle alone')
     run.cov['stability'] = tally
     finish_stats(run, st, 'random schemas x inputs of every kind (special inputs: empty, padded keys, zero-field keys, over-long varints, wire-type mismatches for bool; '
                           'canonical; re-encoded; corrupted; random bytes): RT = unpack, then message_check, get_packed_size, pack, pack_to_buffer, unpack of the result, pack again; '
